@@ -23,9 +23,10 @@ import thespian.actors as ta
 
 import esrally.log
 import esrally.utils.net
+import esrally.utils.sysstats
 from esrally import actor as rally_actor
 from esrally import config, exceptions, metrics
-from esrally.mechanic import launcher, mechanic, provisioner, supplier
+from esrally.mechanic import cluster, launcher, mechanic, provisioner, supplier
 from esrally.utils import opts
 
 from sim import actors, kernel
@@ -38,6 +39,7 @@ JOIN_TIMES = [0.0, 0.5, 3.0, 9.0]
 LEAVE_TIMES = [0.25, 1.0, 4.0, 9.5, 12.0]
 LEAVE_AFTER_STOP = [0.0, 1 / 1024, 0.25, 2.0]
 DURATIONS = [0.0, 0.5, 3.0]
+PROC_STATES = ["alive", "alive", "alive", "gone", "hangs", "gone-at-terminate"]
 BENCHMARK_DURATION = 40.0
 
 
@@ -125,10 +127,54 @@ def run_engine(case):
             return provisioner.NodeConfiguration("tar", None, True, self.ip, self.node_name, f"/r/{self.node_name}", f"/r/{self.node_name}/install", [f"/r/{self.node_name}/data"])
 
     launcher_seq = [0]
+    pid_seq = [4000]
+    proc_state = {}  # pid -> "alive" | "gone" (died during the benchmark) | "gone-at-terminate" | "hangs" (needs kill -9)
+    state_cycle = Cycler(case.get("proc_states"), PROC_STATES)
+    real_psutil = launcher.psutil
 
-    class Launcher:
+    class NodeTelemetry:
+        def __init__(self, node_name):
+            self.node_name = node_name
+
+        def detach_from_node(self, node, running):
+            log.add("node-detach", node=node.node_name, running=running)
+
+        def store_system_metrics(self, node, metrics_store):
+            log.add("node-system-metrics", node=node.node_name)
+
+    class Process:
+        """what ProcessLauncher.stop sees of the operating system's processes"""
+
+        def __init__(self, pid):
+            self.pid = pid
+            if proc_state.get(pid, "gone") == "gone":
+                raise real_psutil.NoSuchProcess(pid)
+
+        def terminate(self):
+            if proc_state[self.pid] == "gone-at-terminate":
+                raise real_psutil.NoSuchProcess(self.pid)
+            log.add("node-terminate", pid=self.pid)
+
+        def wait(self, timeout=None):
+            if proc_state[self.pid] == "hangs":
+                raise real_psutil.TimeoutExpired(timeout, self.pid)
+            proc_state[self.pid] = "gone"
+
+        def kill(self):
+            log.add("node-kill", pid=self.pid)
+            proc_state[self.pid] = "gone"
+
+    class Psutil:
+        NoSuchProcess = real_psutil.NoSuchProcess
+        TimeoutExpired = real_psutil.TimeoutExpired
+
+    Psutil.Process = Process
+
+    class Launcher(launcher.ProcessLauncher):
+        """starts nothing, but stops its nodes with the real ProcessLauncher.stop (processes and telemetry are stand-ins)"""
+
         def __init__(self, c):
-            self.cfg = c
+            super().__init__(c)
             launcher_seq[0] += 1
             self.uid = launcher_seq[0]  # not id(): addresses are reused after garbage collection
 
@@ -142,11 +188,20 @@ def run_engine(case):
                 if fault is not None:
                     fault["fired_at"] = clock.now
                 raise exceptions.LaunchError(f"sim: cannot start node on {ip}:{port}")
-            log.add("launcher-started", ip=ip, nodes=names, launcher=self.uid, port=port)
-            return [Node(n, ip) for n in names]
+            started = []
+            for n in names:
+                pid_seq[0] += 1
+                proc_state[pid_seq[0]] = state_cycle.next()
+                started.append(cluster.Node(pid_seq[0], f"/r/{n}/install", ip, n, NodeTelemetry(n)))
+            log.add("launcher-started", ip=ip, nodes=names, launcher=self.uid, port=port, pids={n.node_name: n.pid for n in started},
+                    states={n.node_name: proc_state[n.pid] for n in started})
+            return started
 
         def stop(self, nodes, metrics_store):
             log.add("launcher-stop", nodes=[n.node_name for n in nodes], launcher=self.uid)
+            stopped = super().stop(nodes, metrics_store)
+            log.add("launcher-stop-returned", launcher=self.uid, stopped=[n.node_name for n in stopped])
+            return stopped
 
     def provisioner_local(c, car, plugins, node_ip, node_http_port, all_node_ips, all_node_names, race_root_path, node_name):
         log.add("provisioner-created", ip=node_ip, port=node_http_port, node=node_name, all_ips=sorted(all_node_ips), all_names=sorted(all_node_names))
@@ -244,6 +299,11 @@ def run_engine(case):
         (provisioner, "local", provisioner_local),
         (provisioner, "cleanup", cleanup),
         (launcher, "ProcessLauncher", Launcher),
+        (launcher, "psutil", Psutil),
+        # (what add_metadata_for_node asks the machine; reading /proc/cpuinfo costs 0.2 s per stop)
+        (esrally.utils.sysstats, "cpu_model", lambda: "sim cpu"),
+        (esrally.utils.sysstats, "physical_cpu_cores", lambda: 4),
+        (esrally.utils.sysstats, "logical_cpu_cores", lambda: 8),
         (metrics, "race_store", lambda c: RaceStore()),
         (metrics, "results_store", lambda c: ResultsStore()),
         (metrics, "calculate_system_results", lambda store, node_name: {"node": node_name}),
